@@ -221,6 +221,16 @@ func (rt *pxRt) attach(name string, hn int, deaf ...bool) *pxConn {
 	return c
 }
 
+// attachFromCallback: AddClient called by application code running inside the proxy (the disconnect callback)
+func (rt *pxRt) attachFromCallback(name string, hn int) *pxConn {
+	c := rt.newConn(name, hn)
+	e := ev("Attach")
+	e.K, e.N = name, hn
+	tr.emit(e)
+	rt.p.AddClient(name, pxProxyEnd{c})
+	return c
+}
+
 func (rt *pxRt) hookEmit(name string, obj any, id uint64, n int, s string) {
 	if !strings.HasPrefix(name, "proxy.") {
 		return // hooks of the endpoints (rpc mode) belong to other properties
@@ -311,7 +321,7 @@ func (rt *pxRt) onDisconnect(id string, reason error) {
 	un := rt.unwound
 	rt.mu.Unlock()
 	if ok && !un {
-		rt.attach(id, hn)
+		rt.attachFromCallback(id, hn)
 	}
 }
 
